@@ -285,7 +285,7 @@ func TestC03(t *testing.T) {
 	// (a) generated programs + re-layout
 	pf := fullProfile()
 	applyOpenFindingExclusions(&pf, rec)
-	rapidRun(t, env, "programs", env.Pick(500, 20000), func(rt *rapid.T) {
+	rapidRun(t, env, "programs", env.Pick(1200, 30000), func(rt *rapid.T) {
 		p := pg.GenProg(rt, pf)
 		files := p.Files()
 		w := pg.NewWorld(files, true)
